@@ -1340,16 +1340,21 @@ def setup_records(ast):
        BT(t) = best_tag_scores[t] >= tag(t, c), attained;  BD(t) = best_dep_scores[t] >= dep(t, h);  Ptag / Pdep = prefix sums of BT / BD;
        tag_out / dep_out (a, b) = P(a) + P(length) - P(b) on the range read;  dep_leaf_out_score = Pdep(length);
        queue t holds exactly the pairs (tag(t, c), c), c < num_tags."""
-    from contracts.parsing_h import find_loops
+    from contracts.parsing_h import find_loops, parse_sentence_roles
+    RN = parse_sentence_roles(ast)          # the variables of parse_sentence by role (type / initialiser / parameter position), not by spelling
     fn = ast.function('parse_sentence')
     body, fors = find_loops(fn)
     stmts = body['inner']
     first = None
     for i, s in enumerate(stmts):
-        if s.get('kind') == 'DeclStmt' and any(d.get('name') == 'best_tag_scores' for d in s.get('inner', [])):
+        if s.get('kind') == 'DeclStmt' and any(d.get('name') == RN['best_tag_scores'] for d in s.get('inner', [])):
             first = i
     if first is None:
-        raise CheckerError('parse_sentence: declaration of best_tag_scores not found')
+        raise CheckerError('parse_sentence: declaration of the best-tag-score vector not found')
+    inner_loops = [n for n in _walk(fors[0]) if n.get('kind') in ('ForStmt', 'WhileStmt') and n is not fors[0]]
+    if len(inner_loops) != 1:
+        raise CheckerError(f'parse_sentence: the score setup loop contains {len(inner_loops)} inner loops (expected the one over the categories)')
+    TOK, CATV = counter_of(fors[0]), counter_of(inner_loops[0])
     last = stmts.index(fors[1])
     region = stmts[first:last]
     if fors[0] not in region:
@@ -1367,8 +1372,10 @@ def setup_records(ast):
         ex.assume(z3.ForAll([a, b], DEP.at(a, b) >= LOW))
         cfg = Obj('config', dict(num_tags=NT), 'config')
         st.update(L=L, NT=NT, TAG=TAG, DEP=DEP, calls=[], last_top=None, ex=ex)
-        return {'length': L, 'config': Ptr(cfg), 'tag_scores': 'tag_scores', 'dep_scores': 'dep_scores', '$PD': z3.Store(ex.fresh('ghostPD', ARR), 0, z3.RealVal(0)),
+        env0 = {RN['length']: L, RN['config']: Ptr(cfg), RN['tag_scores']: 'tag_scores', RN['dep_scores']: 'dep_scores', '$PD': z3.Store(ex.fresh('ghostPD', ARR), 0, z3.RealVal(0)),
                 '$TC': ex.fresh('ghostTC', z3.ArraySort(I_, I_))}
+        st['env0'] = env0
+        return env0
 
     def declare(ex, name, ty, init, env):
         t = ty.replace('const ', '')
@@ -1384,9 +1391,9 @@ def setup_records(ast):
                 ex.oblige('ctor', z3.And(args[1] == st['L'], args[2] == st['L'] + 1), init, 'dep_in_scores views dep_scores as length x (length + 1)')
                 return st['DEP']
             raise CheckerError(f'parsing::matrix {name} constructed from unexpected arguments')
-        if t.startswith('std::priority_queue<parsing::cell_item>'):
+        if name == RN['agenda'] or t.startswith('std::priority_queue<parsing::cell_item>'):
             return Abstract('agenda')
-        if t.startswith('std::vector<std::priority_queue<scored_category>'):
+        if name == RN['scored_cats'] or t.startswith('std::vector<std::priority_queue<scored_category>'):
             c = strip_casts(init)
             args = [ex.ev(a_, env) for a_ in c.get('inner', []) if 'kind' in a_ and a_['kind'] != 'CXXDefaultArgExpr']
             return PQVec(z3.K(I_, z3.K(I_, z3.BoolVal(False))), ex.fresh('pq_score', ARR2), args[0])
@@ -1422,7 +1429,7 @@ def setup_records(ast):
 
     def queues_full(env, T, upto=None):
         """queues of the tokens < T are complete; (row T holds the categories < upto); later rows are empty"""
-        pqs, NT, TAG = env['scored_cats'], st['NT'], st['TAG']
+        pqs, NT, TAG = env[RN['scored_cats']], st['NT'], st['TAG']
         t, c = _q('t'), _q('c')
         has = lambda t_, c_: z3.Select(z3.Select(pqs.has, t_), c_)
         sc = lambda t_, c_: z3.Select(z3.Select(pqs.score, t_), c_)
@@ -1436,7 +1443,7 @@ def setup_records(ast):
 
     def best_facts(env, T):
         L, NT, TAG, DEP = st['L'], st['NT'], st['TAG'], st['DEP']
-        BT, BD, PD, TC = env['best_tag_scores'].arr, env['best_dep_scores'].arr, env['$PD'], env['$TC']
+        BT, BD, PD, TC = env[RN['best_tag_scores']].arr, env[RN['best_dep_scores']].arr, env['$PD'], env['$TC']
         t, c, h, k = _q('t'), _q('c'), _q('h'), _q()
         return z3.And(
             z3.ForAll([t, c], z3.Implies(z3.And(t >= 0, t < T, c >= 0, c < NT), z3.Select(BT, t) >= TAG.at(t, c))),
@@ -1444,19 +1451,19 @@ def setup_records(ast):
             z3.ForAll([t, h], z3.Implies(z3.And(t >= 0, t < T, h >= 0, h <= L), z3.Select(BD, t) >= DEP.at(t, h))),
             z3.Select(PD, 0) == 0,
             z3.ForAll([k], z3.Implies(z3.And(k >= 0, k < T), z3.Select(PD, k + 1) == z3.Select(PD, k) + z3.Select(BD, k))),
-            env['dep_leaf_out_score'] == z3.Select(PD, T))
+            env[RN['dep_leaf_out_score']] == z3.Select(PD, T))
 
     def inv_outer(env):
-        T = env['token_id']
+        T = env[TOK]
         return z3.And(T >= 0, T <= st['L'], queues_full(env, T), best_facts(env, T))
 
     def inv_inner(env):
-        T, C = env['token_id'], env['category_id']
+        T, C = env[TOK], env[CATV]
         return z3.And(T >= 0, T < st['L'], C >= 0, C <= st['NT'], queues_full(env, T, C))
 
     def ghost_outer(env):
-        T = env['token_id']
-        env['$PD'] = z3.Store(env['$PD'], T + 1, z3.Select(env['$PD'], T) + z3.Select(env['best_dep_scores'].arr, T))
+        T = env[TOK]
+        env['$PD'] = z3.Store(env['$PD'], T + 1, z3.Select(env['$PD'], T) + z3.Select(env[RN['best_dep_scores']].arr, T))
         # the witness of "best_tag_scores[t] is attained": the category top() returned in this iteration (unknown if the body did not ask the queue)
         env['$TC'] = z3.Store(env['$TC'], T, st['last_top'] if st['last_top'] is not None else st['ex'].fresh('no_top', I_))
         st['last_top'] = None
@@ -1469,29 +1476,29 @@ def setup_records(ast):
 
     def post(ex, env, ret):
         L, NT, TAG, DEP = st['L'], st['NT'], st['TAG'], st['DEP']
-        BT, BD, PD = env['best_tag_scores'], env['best_dep_scores'], env['$PD']
+        BT, BD, PD = env[RN['best_tag_scores']], env[RN['best_dep_scores']], env['$PD']
         goals = [('setup-post', z3.And(queues_full(env, L), best_facts(env, L)),
                   'queue t = {(tag(t, c), c) : c < num_tags}; best_tag_scores[t] = max_c tag(t, c); best_dep_scores[t] >= dep(t, h) for h <= length; dep_leaf_out_score = sum of best_dep_scores'),
                  ('setup-post', z3.And(BT.size == L, BD.size == L), 'best_tag_scores / best_dep_scores have one entry per token')]
         calls = st['calls']
-        ok = len(calls) == 2 and calls[0][0] is BT and calls[0][1] is env.get('tag_out_scores') and calls[1][0] is BD and calls[1][1] is env.get('dep_out_scores')
+        ok = len(calls) == 2 and calls[0][0] is BT and calls[0][1] is env.get(RN['tag_out_scores']) and calls[1][0] is BD and calls[1][1] is env.get(RN['dep_out_scores'])
         goals.append(('setup-post', z3.BoolVal(ok), 'tag_out_scores is computed from best_tag_scores and dep_out_scores from best_dep_scores'))
         if ok:
             k = _q()
             Pt, Pd = calls[0][2], calls[1][2]
-            goals.append(('setup-post', z3.And(prefix_rec(Pt, BT.arr, L), outside_contract(env['tag_out_scores'], Pt, L)), 'tag_out_scores(a, b) = Ptag(a) + Ptag(length) - Ptag(b), Ptag the prefix sums of best_tag_scores'))
+            goals.append(('setup-post', z3.And(prefix_rec(Pt, BT.arr, L), outside_contract(env[RN['tag_out_scores']], Pt, L)), 'tag_out_scores(a, b) = Ptag(a) + Ptag(length) - Ptag(b), Ptag the prefix sums of best_tag_scores'))
             # Pd and the ghost PD of the loop obey the same recurrence: equal on [0, length] (lemma prefix-unique below)
             goals.append(('setup-post', z3.Implies(z3.ForAll([k], z3.Implies(z3.And(k >= 0, k <= L), z3.Select(Pd, k) == z3.Select(PD, k))),
-                                                   z3.And(prefix_rec(PD, BD.arr, L), outside_contract(env['dep_out_scores'], PD, L), env['dep_leaf_out_score'] == z3.Select(PD, L))),
+                                                   z3.And(prefix_rec(PD, BD.arr, L), outside_contract(env[RN['dep_out_scores']], PD, L), env[RN['dep_leaf_out_score']] == z3.Select(PD, L))),
                           'dep_out_scores(a, b) = Pdep(a) + Pdep(length) - Pdep(b) and dep_leaf_out_score = Pdep(length), Pdep the prefix sums of best_dep_scores'))
         return goals
 
     class _M(dict):
         pass
     hooks = dict(declare=declare, method=method, call=call)
-    loops = [LoopSpec(inv_outer, variant=lambda env: st['L'] - env['token_id'], ghost=ghost_outer, ghost_names=('$PD', '$TC'),
+    loops = [LoopSpec(inv_outer, variant=lambda env: st['L'] - env[TOK], ghost=ghost_outer, ghost_names=('$PD', '$TC'),
                       what='the tokens before token_id have their queue, best tag score, best head score and prefix sum'),
-             LoopSpec(inv_inner, variant=lambda env: st['NT'] - env['category_id'], what='the queue of token_id holds the categories before category_id')]
+             LoopSpec(inv_inner, variant=lambda env: st['NT'] - env[CATV], what='the queue of token_id holds the categories before category_id')]
 
     # the category returned by top() is needed by the ghost statement of the outer loop: remember it
     orig_method = HModel.method
